@@ -123,6 +123,26 @@ func checkC10(p *Program, r *Report) {
 	r.Add("C10.scanall", mname, "every verdict is given after the output loop", hdr.Instrs[0].Pos(), dominatesAllReturns(matcher, hdr), "the loop header dominates every return: matching outputs get their outpoints inserted even when the txid already matched")
 
 	c10pushes(p, r, matcher)
+	// a negative verdict needs every input examined as well
+	if ihdr, _, _ := rangeLoopOver(matcher, "TxIn"); ihdr == nil {
+		r.Unresolved("C10.scanall", "loop over the transaction's inputs in "+mname)
+	} else {
+		for i, ret := range returnsOf(matcher) {
+			if len(ret.Results) != 1 {
+				continue
+			}
+			v, isConst := constBool(ret.Results[0])
+			if isConst && v {
+				continue
+			}
+			dom := ihdr == ret.Block() || ihdr.Dominates(ret.Block())
+			how := "the input loop's header dominates the return"
+			if !dom {
+				how = "\"does not match\" can be answered before any input was looked at (a spent outpoint or a data push of an input script may be in the filter)"
+			}
+			r.Add("C10.scanall", mname, fmt.Sprintf("exit #%d that may answer false comes after the input loop", i+1), p.InstrPos(ret), dom, how)
+		}
+	}
 
 	// ---- C10.outpoint: the update helper call inside the loop
 	var helper *ssa.Function
@@ -265,6 +285,7 @@ func checkC10(p *Program, r *Report) {
 				k    int64
 				b    bool
 			}
+			mustInsert := false // set per (flag, class) before each evaluation
 			var evalFn func(fn *ssa.Function, args []av, flag, class int64, depth int) (inserted bool, ret av, why string)
 			evalFn = func(fn *ssa.Function, args []av, flag, class int64, depth int) (bool, av, string) {
 				if depth > 3 {
@@ -409,8 +430,14 @@ func checkC10(p *Program, r *Report) {
 						if c.kind != "bool" {
 							// a condition on something else (the script's length, say): follow the inserting side if
 							// there is one — "may insert" — so that only flag and class decide what is reported
-							mayA := reachesInsert(cur.Succs[0])
-							if mayA {
+							// When BIP37 demands the insertion for this (flag, class), the pessimistic side is the one
+							// that does not insert: a test on the script's length must not be able to skip it.
+							mayA, mayB := reachesInsert(cur.Succs[0]), reachesInsert(cur.Succs[1])
+							takeA := mayA
+							if mustInsert && mayA != mayB {
+								takeA = !mayA // the side that cannot insert
+							}
+							if takeA {
 								prev, cur = cur, cur.Succs[0]
 							} else {
 								prev, cur = cur, cur.Succs[1]
@@ -461,8 +488,9 @@ func checkC10(p *Program, r *Report) {
 			howAll, howP2, howElse := "inserts for every script class", "inserts exactly for PubKeyTy and MultiSigTy", "flag None and unknown flag values insert nothing"
 			for _, cls := range classDomain {
 				for _, fl := range []int64{all, p2pk, none, other} {
-					ins, _, why := evalFn(helper, nil, fl, cls, 0)
 					want := fl == all || (fl == p2pk && (cls == pubKeyTy || cls == multiSigTy))
+					mustInsert = want
+					ins, _, why := evalFn(helper, nil, fl, cls, 0)
 					msg := ""
 					if why != "" {
 						msg = "kind=undecided: " + why
